@@ -1,9 +1,10 @@
 /- Native line-protocol driver: one operation per input line, one result per output line. -/
 import CLModel.Ops.Rx
 import CLModel.Ops.C20
+import CLModel.Ops.C01
 
 def allOps : List (String × (List String → String)) :=
-  Ops.Rx.ops ++ Ops.C20.ops
+  Ops.Rx.ops ++ Ops.C20.ops ++ Ops.C01.ops
 
 def handle (line : String) : String :=
   match ((Proto.splitChars (Char.ofNat 32) (line.toList.filter (fun c => c != (Char.ofNat 10) && c != (Char.ofNat 13)))).map String.ofList).filter (· ≠ "") with
